@@ -1,6 +1,8 @@
 """C13 - multi-parameter order bookkeeping (scale, merge, permute, vanish, substitute)."""
 from __future__ import annotations
 
+import re
+
 import itertools
 from collections import Counter
 from fractions import Fraction
@@ -92,7 +94,10 @@ def _close(p, A, B, what, bitwise=False, scale=1.0):
             raise Violation(f"{what}: not bitwise equal (max diff {np.max(np.abs(A - B)):.3e})")
         return
     err = float(np.max(np.abs(A - B), initial=0.0))
-    if not err <= 1e-9 * max(1.0, scale):
+    # (rounding noise of a rotated / re-encoded input is amplified by |H'|/gap per order: oracles.noise_floor)
+    m_ = re.search(r"_\(([0-9, ]+)\)$", what)
+    n_ = tuple(int(x) for x in m_.group(1).replace(" ", "").strip(",").split(",")) if m_ else tuple(p.orders[-1])
+    if not err <= 1e-9 * max(1.0, scale) + oracles.noise_floor(p, n_):
         raise Violation(f"{what}: differ by {err:.3e} (scale {scale:.3g})")
 
 
